@@ -232,7 +232,36 @@ int main(int argc, char **argv) {
     vf::g_trace = out;
     std::string line;
     long        n = 0;
-    if (mode == "expr") {
+    if (mode == "exprparse") {
+        // spec -> code (E2) for QExprParseImpl: every (expression, closing unit) of the model; the buffer is expression + closing unit, exact size,
+        // parsed with length = the expression's; prints the accepted top-level operator list.   line: expression units \t closing unit
+        static const char *OPN[] = {"NoOp", "||", "&&", "==", "!=", ">=", "<=", ">", "<", "|", "&", "+", "-", "*", "/", "%", "^", "Error"};
+        long cases = 0;
+        while (vf::read_line(in, line)) {
+            long idx = n++;
+            if (idx < from) continue;
+            auto cols = vf::split(line, '\t');
+            if (cols.size() < 2) continue;
+            std::vector<long> e = vf::parse_ints(cols[0].c_str()), cl = vf::parse_ints(cols[1].c_str());
+            vf::begin_case(idx, 20);
+            snprintf(vf::g_desc, sizeof(vf::g_desc), "exprparse %s | %s", cols[0].c_str(), cols[1].c_str());
+            char *buf = (char *)malloc(e.size() + 1);
+            for (size_t i = 0; i < e.size(); ++i) buf[i] = (char)e[i];
+            buf[e.size()] = (char)cl[0];
+            {
+                auto exprs = TemplateCore<char, Value<char>, StringStream<char>>::ParseExpressions(buf, (SizeT)e.size());
+                std::string ops;
+                for (SizeT i = 0; i < exprs.Size(); ++i) {
+                    if (i) ops += ",";
+                    ops += std::string("\"") + OPN[(int)exprs.First()[i].Operation] + "\"";
+                }
+                fprintf(out, "{\"e\":[%s],\"c\":%ld,\"n\":%ld,\"ops\":[%s]}\n", cols[0].c_str(), cl[0], (long)exprs.Size(), ops.c_str());
+            }
+            free(buf);
+            ++cases;
+        }
+        printf("CASES %ld\n", cases);
+    } else if (mode == "expr") {
         std::vector<long> vj(VARS_JSON, VARS_JSON + strlen(VARS_JSON));
         Value<char>       vars = parse_value<char>(vj);
         while (vf::read_line(in, line)) {
